@@ -105,6 +105,85 @@ var ifaceRows = []ifaceRow{
 	}},
 }
 
+// fields tagged inline whose STATIC type is an interface (empty, named,
+// pointer to interface), pre-filled with every kind of holder: nothing, typed
+// nil pointers, set pointers, values, and the same one level deeper
+type inlIface interface{}
+
+type inlStruct struct {
+	A int `config:"a"`
+	V int `config:"v"`
+}
+
+type inlineFill struct {
+	label string
+	mk    func() interface{}
+}
+
+var inlineFills = []inlineFill{
+	{"nil", func() interface{} { return nil }},
+	{"typed-nil-struct-pointer", func() interface{} { return (*inlStruct)(nil) }},
+	{"typed-nil-map-pointer", func() interface{} { return (*map[string]interface{})(nil) }},
+	{"struct-pointer", func() interface{} { return &inlStruct{A: 1} }},
+	{"struct-by-value", func() interface{} { return inlStruct{A: 1} }},
+	{"map", func() interface{} { return map[string]interface{}{"a": 1} }},
+	{"nil-map", func() interface{} { return map[string]interface{}(nil) }},
+	{"map-pointer", func() interface{} { mm := map[string]interface{}{"a": 1}; return &mm }},
+	{"typed-nil-slice-pointer", func() interface{} { return (*[]int)(nil) }},
+	{"typed-nil-int-pointer", func() interface{} { return (*int)(nil) }},
+	{"typed-nil-config-pointer", func() interface{} { return (*ucfg.Config)(nil) }},
+	// one level deeper: the interface holds a pointer to a pointer
+	{"pointer-to-nil-struct-pointer", func() interface{} { var p *inlStruct; return &p }},
+	{"pointer-to-struct-pointer", func() interface{} { p := &inlStruct{A: 1}; return &p }},
+	{"typed-nil-pointer-to-struct-pointer", func() interface{} { return (**inlStruct)(nil) }},
+	{"pointer-to-nil-map-pointer", func() interface{} { var p *map[string]interface{}; return &p }},
+	{"pointer-to-interface-holding-nil-struct-pointer", func() interface{} { var i interface{} = (*inlStruct)(nil); return &i }},
+	{"pointer-to-interface-holding-struct", func() interface{} { var i interface{} = inlStruct{}; return &i }},
+}
+
+func inlineIfaceRows() []ifaceRow {
+	var out []ifaceRow
+	for _, f := range inlineFills {
+		f := f
+		out = append(out,
+			ifaceRow{"inline-interface-holding-" + f.label, "inline-field-of-interface-type", func() interface{} {
+				return &struct {
+					F0 interface{} `config:",inline"`
+				}{F0: f.mk()}
+			}},
+			ifaceRow{"inline-named-interface-holding-" + f.label, "inline-field-of-interface-type", func() interface{} {
+				return &struct {
+					F0 inlIface `config:",inline"`
+					X  int      `config:"x"`
+				}{F0: f.mk()}
+			}},
+			ifaceRow{"inline-pointer-to-interface-holding-" + f.label, "inline-field-of-interface-type", func() interface{} {
+				i := f.mk()
+				return &struct {
+					F0 *interface{} `config:",inline"`
+				}{F0: &i}
+			}},
+			ifaceRow{"inline-nonempty-interface-holding-" + f.label, "inline-field-of-interface-type", func() interface{} {
+				t := &struct {
+					F0 fmt.Stringer `config:",inline"`
+				}{}
+				if s, ok := f.mk().(fmt.Stringer); ok {
+					t.F0 = s
+				}
+				return t
+			}},
+		)
+	}
+	out = append(out, ifaceRow{"inline-nil-pointer-to-interface", "inline-field-of-interface-type", func() interface{} {
+		return &struct {
+			F0 *interface{} `config:",inline"`
+		}{}
+	}})
+	return out
+}
+
+func init() { ifaceRows = append(ifaceRows, inlineIfaceRows()...) }
+
 func runIfaceTargets(m *mon) {
 	for _, row := range ifaceRows {
 		for _, f := range fixtures {
